@@ -15,7 +15,9 @@ package sched
 
 import (
 	"fmt"
+	"os"
 	"runtime/debug"
+	"time"
 )
 
 // OpKind names the kind of operation a thread is about to perform.
@@ -77,7 +79,17 @@ type Result struct {
 	Horizon     bool // step horizon hit
 	BadPrefix   string
 	Preemptions int
+	// Stuck: a thread was given the processor and neither reached its next scheduling point nor finished within
+	// StuckTimeout of real time: it blocks on (or spins in) something the scheduler does not control - a select, a
+	// range over a channel, a real system call.  The execution cannot be continued or cleaned up; the caller must stop.
+	Stuck string
 }
+
+// StuckTimeout bounds how long one step of one thread may take in real time (generous: steps take microseconds).
+var StuckTimeout = 90 * time.Second
+
+// ActiveExec identifies the execution in progress (nil outside one): a key for per-execution shim state.
+func ActiveExec() *Exec { return active }
 
 // Exec is one controlled execution.
 type Exec struct {
@@ -318,7 +330,18 @@ func (x *Exec) loop() {
 		running = t
 		x.cur = t
 		t.wake <- true
-		<-x.parked
+		select {
+		case <-x.parked:
+		case <-time.After(StuckTimeout):
+			// nothing after this could be trusted (a goroutine of this execution is still alive and may wake up inside
+			// the next one): stop the process with a harness error - not a verdict about the property
+			defer func() {
+				fmt.Println("ERROR uncontrolled blocking under the cooperative scheduler:", res.Stuck)
+				os.Exit(2)
+			}()
+			res.Stuck = fmt.Sprintf("thread t%d (%s) did not reach a scheduling point within %v after being resumed at %s %s (step %d): it blocks on an operation the scheduler does not control", t.ID, t.Name, StuckTimeout, t.kind, t.label, len(res.Steps))
+			return
+		}
 		x.cur = nil
 	}
 }
